@@ -34,7 +34,6 @@ structure Stats where
 structure Conn where
   phase : Phase := .connecting
   disconnected : Bool := false      -- BGP.disconnected
-  buf : Bytes := []                 -- BGP._receive_buffer
   asn4 : Bool := false              -- BGP.fourbytesas
   sent : Stats := {}
   recv : Stats := {}
@@ -103,22 +102,54 @@ def boot (cfg : Cfg) : Sess :=
 
 namespace Sess
 
+/-! ### field setters (every action below is a composition of these) -/
+
 def emit (s : Sess) (o : Out) : Sess := { s with outs := s.outs ++ [o] }
+def withNow (s : Sess) (v : Nat) : Sess := { s with now := v }
+def withSt (s : Sess) (v : St) : Sess := { s with st := v }
+def withTm (s : Sess) (v : Timers) : Sess := { s with tm := v }
+def withAllow (s : Sess) (v : Bool) : Sess := { s with allowAuto := v }
+def withRetryCounter (s : Sess) (v : Nat) : Sess := { s with retryCounter := v }
+def withHoldTime (s : Sess) (v : Nat) : Sess := { s with holdTime := v }
+def withProto (s : Sess) (v : Option Nat) : Sess := { s with proto := v }
+def withEstab (s : Sess) (v : Option Nat) : Sess := { s with estab := v }
+def withConns (s : Sess) (v : List Conn) : Sess := { s with conns := v }
+def withLocalCaps (s : Sess) (v : LocalCaps) : Sess := { s with localCaps := v }
+def withRemote (s : Sess) (v : CapaDict) : Sess := { s with remote := v }
+def withBgpId (s : Sess) (v : Option Nat) : Sess := { s with bgpId := v }
+def withOuts (s : Sess) (v : List Out) : Sess := { s with outs := v }
+
+def setRetry (s : Sess) (v : Option Nat) : Sess := s.withTm { s.tm with retry := v }
+def setHold (s : Sess) (v : Option Nat) : Sess := s.withTm { s.tm with hold := v }
+def setKeepalive (s : Sess) (v : Option Nat) : Sess := s.withTm { s.tm with keepalive := v }
+def setIdleHold (s : Sess) (v : Option Nat) : Sess := s.withTm { s.tm with idleHold := v }
 
 def conn (s : Sess) (i : Nat) : Conn := s.conns.getD i {}
-def setConn (s : Sess) (i : Nat) (c : Conn) : Sess := { s with conns := s.conns.set i c }
+def setConn (s : Sess) (i : Nat) (c : Conn) : Sess := s.withConns (s.conns.set i c)
+
+/-- per-connection field updates -/
+def setPhase (s : Sess) (i : Nat) (p : Phase) : Sess := s.setConn i { (s.conn i) with phase := p }
+def setDisconnected (s : Sess) (i : Nat) : Sess := s.setConn i { (s.conn i) with disconnected := true }
+def setAsn4 (s : Sess) (i : Nat) : Sess := s.setConn i { (s.conn i) with asn4 := true }
+def bumpSent (s : Sess) (i : Nat) (f : Stats → Stats) : Sess := s.setConn i { (s.conn i) with sent := f (s.conn i).sent }
+def bumpRecv (s : Sess) (i : Nat) (f : Stats → Stats) : Sess := s.setConn i { (s.conn i) with recv := f (s.conn i).recv }
+
+def incOpens (st : Stats) : Stats := { st with opens := st.opens + 1 }
+def incNotifications (st : Stats) : Stats := { st with notifications := st.notifications + 1 }
+def incUpdates (st : Stats) : Stats := { st with updates := st.updates + 1 }
+def incKeepalives (st : Stats) : Stats := { st with keepalives := st.keepalives + 1 }
+def incRouteRefresh (st : Stats) : Stats := { st with routeRefresh := st.routeRefresh + 1 }
 
 /-- assigning FSM.state: a change to Established is reported to the application -/
 def setSt (s : Sess) (v : St) : Sess :=
-  if v ≠ s.st ∧ v = .established then { (s.emit .hEstablished) with st := v } else { s with st := v }
+  if v ≠ s.st ∧ v = .established then (s.emit .hEstablished).withSt v else s.withSt v
 
 def holdTicks (s : Sess) : Nat := 3 * s.holdTime
 def kaTicks (s : Sess) : Nat := s.holdTime
+def retryDeadline (s : Sess) : Nat := s.now + 3 * s.cfg.retryT
+def idleDeadline (s : Sess) : Nat := s.now + 3 * s.cfg.idleHoldT
 
 /-! ### protocol-level sends (always through FSM.protocol) -/
-
-def bumpSent (c : Conn) (f : Stats → Stats) : Conn := { c with sent := f c.sent }
-def bumpRecv (c : Conn) (f : Stats → Stats) : Conn := { c with recv := f c.recv }
 
 def transportUp (c : Conn) : Bool := c.phase = .connected ∨ c.phase = .closing
 
@@ -130,16 +161,14 @@ def sendNotification (s : Sess) (err sub : Nat) (data : Bytes) : Sess :=
   match s.proto with
   | none => s.emit .escaped
   | some i =>
-    let s1 := s.setConn i (bumpSent (s.conn i) fun st => { st with notifications := st.notifications + 1 })
     match constructNotification err sub data with
-    | some w => s1.writeOn i w
-    | none => s1.emit .escaped
+    | some w => (s.bumpSent i incNotifications).writeOn i w
+    | none => (s.bumpSent i incNotifications).emit .escaped
 
 def sendKeepalive (s : Sess) : Sess :=
   match s.proto with
   | none => s.emit .escaped
-  | some i =>
-    (s.setConn i (bumpSent (s.conn i) fun st => { st with keepalives := st.keepalives + 1 })).writeOn i constructKeepalive
+  | some i => (s.bumpSent i incKeepalives).writeOn i constructKeepalive
 
 def remoteNonEmpty (r : CapaDict) : Bool :=
   r.fourBytesAs || r.afiSafi.isSome || r.routeRefresh || r.ciscoRouteRefresh || r.gracefulRestart ||
@@ -160,77 +189,71 @@ def negotiateCaps (l : LocalCaps) (r : CapaDict) : LocalCaps :=
       ciscoMultiSession := l.ciscoMultiSession && r.ciscoMultiSession }
   else l
 
+/-- the OPEN message BGP.send_open builds in state `s` -/
+def openWire (s : Sess) : Option Bytes :=
+  constructOpen 4 s.cfg.localAs s.cfg.holdCfg (s.bgpId.getD 0) (negotiateCaps s.localCaps s.remote)
+
 /-- BGP.send_open on FSM.protocol; the Bool is false when an exception leaves send_open before anything
     was written (capability_negotiate has already run by then) -/
 def sendOpen (s : Sess) : Sess × Bool :=
   match s.proto with
   | none => (s, false)
   | some i =>
-    match constructOpen 4 s.cfg.localAs s.cfg.holdCfg (s.bgpId.getD 0) (negotiateCaps s.localCaps s.remote) with
-    | none => ({ s with localCaps := negotiateCaps s.localCaps s.remote }, false)
+    match s.openWire with
+    | none => (s.withLocalCaps (negotiateCaps s.localCaps s.remote), false)
     | some w =>
-      (((({ s with localCaps := negotiateCaps s.localCaps s.remote }).writeOn i w).setConn i
-          (bumpSent ((({ s with localCaps := negotiateCaps s.localCaps s.remote }).writeOn i w).conn i)
-            fun st => { st with opens := st.opens + 1 })).emit
+      ((((s.withLocalCaps (negotiateCaps s.localCaps s.remote)).writeOn i w).bumpSent i incOpens).emit
           (.hSendOpen i s.cfg.localAs s.cfg.holdCfg (s.bgpId.getD 0)), true)
 
 /-! ### FSM helpers -/
+
+/-- BGP.closeConnection on connection `i` -/
+def closeOn (s : Sess) (i : Nat) : Sess :=
+  if (s.conn i).phase = .connected then ((s.setPhase i .closing).setDisconnected i).emit (.lose i)
+  else if (s.conn i).phase = .closing then s.setDisconnected i
+  else s
 
 /-- FSM._close_connection -/
 def closeConn (s : Sess) : Sess :=
   match s.proto with
   | none => s
-  | some i =>
-    let c := s.conn i
-    let s1 :=
-      if c.phase = .connected then (s.setConn i { c with phase := .closing, disconnected := true }).emit (.lose i)
-      else if c.phase = .closing then s.setConn i { c with disconnected := true }
-      else s
-    { s1 with retryCounter := 0 }
+  | some i => (s.closeOn i).withRetryCounter 0
+
+def incRetryCounter (s : Sess) : Sess := s.withRetryCounter (s.retryCounter + 1)
 
 /-- FSM._error_close -/
 def errorClose (s : Sess) : Sess :=
-  let s1 := { s with tm := { retry := none, hold := none, keepalive := none,
-                             idleHold := some (s.now + 3 * s.cfg.idleHoldT) } }
-  let s2 := s1.closeConn
-  ({ s2 with retryCounter := s2.retryCounter + 1 }).setSt .idle
+  ((s.withTm { retry := none, hold := none, keepalive := none, idleHold := some s.idleDeadline }).closeConn).incRetryCounter.setSt .idle
 
 /-- BGPPeering.connect -/
 def connectTcp (s : Sess) : Sess :=
-  if s.st ≠ .established then
-    ({ s with conns := s.conns ++ [({} : Conn)] }).emit (.connect s.conns.length)
+  if s.st ≠ .established then (s.withConns (s.conns ++ [({} : Conn)])).emit (.connect s.conns.length)
   else s
 
 /-- BGPPeering.automatic_start(idle_hold) (with FSM.automatic_start inlined) -/
 def autoStart (s : Sess) (idleHold : Bool) : Sess :=
   if s.st = .idle then
-    if idleHold then { s with tm := { s.tm with idleHold := some (s.now + 3 * s.cfg.idleHoldT) } }
-    else if s.allowAuto then
-      (({ s with retryCounter := s.retryCounter + 1,
-                 tm := { s.tm with retry := some (s.now + 3 * s.cfg.retryT) } }).setSt .connect).connectTcp
+    if idleHold then s.setIdleHold (some s.idleDeadline)
+    else if s.allowAuto then ((s.incRetryCounter.setRetry (some s.retryDeadline)).setSt .connect).connectTcp
     else s
   else s
 
+/-- the first half of BGPPeering.connection_closed(pro) -/
+def dropEstab (s : Sess) (pro : Option Nat) : Sess :=
+  match pro with
+  | some p => if s.estab = some p then (s.withEstab none).setSt .idle else s
+  | none => s
+
 /-- BGPPeering.connection_closed(pro) -/
 def connectionClosed (s : Sess) (pro : Option Nat) : Sess :=
-  let s1 :=
-    match pro with
-    | some p => if s.estab = some p then ({ s with estab := none }).setSt .idle else s
-    | none => s
-  if s1.allowAuto then s1.autoStart true else s1
+  if (s.dropEstab pro).allowAuto then (s.dropEstab pro).autoStart true else s.dropEstab pro
 
 /-- FSM.connection_failed -/
 def connectionFailed (s : Sess) : Sess :=
   match s.st with
-  | .connect =>
-      let s1 := ({ s with tm := { s.tm with retry := none } }).closeConn
-      (s1.setSt .idle).connectionClosed s1.proto
-  | .active =>
-      ({ s with tm := { s.tm with retry := some (s.now + 3 * s.cfg.retryT) } }).setSt .idle
-  | .openSent =>
-      let s1 := s.closeConn
-      let s2 := ({ s1 with tm := { s1.tm with retry := some (s1.now + 3 * s1.cfg.retryT) } }).setSt .active
-      s2.connectionClosed s2.proto
+  | .connect => (((s.setRetry none).closeConn).setSt .idle).connectionClosed s.proto
+  | .active => (s.setRetry (some s.retryDeadline)).setSt .idle
+  | .openSent => (((s.closeConn).setRetry (some s.retryDeadline)).setSt .active).connectionClosed s.proto
   | .openConfirm => s.errorClose
   | .established => s.errorClose
   | .idle => s
@@ -240,69 +263,59 @@ def connectionFailed (s : Sess) : Sess :=
 def manualStart (s : Sess) : Sess :=
   match s.st with
   | .established => s.emit (.retStart 2)
-  | .idle =>
-      ((({ s with allowAuto := true, tm := { s.tm with retry := some (s.now + 3 * s.cfg.retryT) } }).setSt .connect).connectTcp).emit (.retStart 1)
+  | .idle => ((((s.withAllow true).setRetry (some s.retryDeadline)).setSt .connect).connectTcp).emit (.retStart 1)
   | _ => s.emit (.retStart 0)
 
 def manualStop (s : Sess) : Sess :=
-  let s1 := if s.st = .established then s.sendNotification C.errCease 0 [] else s
-  let s2 := ({ s1 with tm := {} }).closeConn
-  (({ s2 with retryCounter := 0, allowAuto := false }).setSt .idle).emit .retStop
+  ((((((if s.st = .established then s.sendNotification C.errCease 0 [] else s).withTm {}).closeConn).withRetryCounter 0).withAllow false).setSt .idle).emit .retStop
 
 /-! ### connection events -/
 
+/-- FSM.connection_made (state is Connect here: _initProtocol has just set it) -/
+def connectionMade (s : Sess) : Sess :=
+  if ((s.setRetry none).setIdleHold none).sendOpen.2 then
+    ((((s.setRetry none).setIdleHold none).sendOpen.1).setHold (some (s.now + 3 * C.largeHoldTime))).setSt .openSent
+  else ((s.setRetry none).setIdleHold none).sendOpen.1     -- exception caught and logged by connectionMade
+
 /-- a pending connectTCP succeeded: buildProtocol, makeConnection, connectionMade -/
 def connOk (s : Sess) (i : Nat) : Sess :=
-  let s1 := (s.setConn i { (s.conn i) with phase := .connected })
-  let s2 := ({ s1 with proto := some i, estab := some i }).setSt .connect
-  let s3 := { s2 with bgpId := some (s2.bgpId.getD s2.cfg.localId) }
-  -- FSM.connection_made
-  let s4 := { s3 with tm := { s3.tm with retry := none, idleHold := none } }
-  if s4.sendOpen.2 then
-    ({ s4.sendOpen.1 with tm := { s4.sendOpen.1.tm with hold := some (s4.now + 3 * C.largeHoldTime) } }).setSt .openSent
-  else s4.sendOpen.1                             -- exception caught and logged by connectionMade
+  ((((((s.setPhase i .connected).withProto (some i)).setSt .connect).withEstab (some i)).withBgpId
+      (some (s.bgpId.getD s.cfg.localId)))).connectionMade
 
 /-- a pending connectTCP failed (refused, timed out) -/
 def connFail (s : Sess) (i : Nat) : Sess :=
-  ((s.setConn i { (s.conn i) with phase := .closed }).emit .hConnFailed).connectionFailed
+  ((s.setPhase i .closed).emit .hConnFailed).connectionFailed
 
 /-- connectionLost delivered for connection `i` (peer closed, or our close completed) -/
 def connLost (s : Sess) (i : Nat) : Sess :=
-  let s1 := (s.setConn i { (s.conn i) with phase := .closed }).emit (.hConnLost i)
-  if (s.conn i).disconnected then s1.connectionClosed (some i) else s1.connectionFailed
+  if (s.conn i).disconnected then ((s.setPhase i .closed).emit (.hConnLost i)).connectionClosed (some i)
+  else ((s.setPhase i .closed).emit (.hConnLost i)).connectionFailed
 
 /-! ### timer events -/
 
 def fireRetry (s : Sess) : Sess :=
-  let s0 := { s with tm := { s.tm with retry := none } }
-  match s0.st with
-  | .connect | .active =>
-      let s1 := s0.closeConn
-      ({ s1 with tm := { s1.tm with retry := some (s1.now + 3 * s1.cfg.retryT) } }).connectTcp
-  | .idle => s0
-  | _ => (s0.sendNotification C.errFsm 0 []).errorClose
+  match s.st with
+  | .connect | .active => (((s.setRetry none).closeConn).setRetry (some s.retryDeadline)).connectTcp
+  | .idle => s.setRetry none
+  | _ => ((s.setRetry none).sendNotification C.errFsm 0 []).errorClose
 
 def fireHold (s : Sess) : Sess :=
-  let s0 := { s with tm := { s.tm with hold := none } }
-  match s0.st with
+  match s.st with
   | .openSent | .openConfirm | .established =>
-      let s1 := s0.sendNotification C.errHold 0 []
-      (({ s1 with tm := { s1.tm with retry := none } }).errorClose).setSt .idle
-  | .connect | .active => s0.errorClose
-  | .idle => s0
+      ((((s.setHold none).sendNotification C.errHold 0 []).setRetry none).errorClose).setSt .idle
+  | .connect | .active => (s.setHold none).errorClose
+  | .idle => s.setHold none
 
 def fireKeepalive (s : Sess) : Sess :=
-  let s0 := { s with tm := { s.tm with keepalive := none } }
-  match s0.st with
+  match s.st with
   | .openConfirm | .established =>
-      let s1 := s0.sendKeepalive
-      if s1.holdTime > 0 then { s1 with tm := { s1.tm with keepalive := some (s1.now + s1.kaTicks) } } else s1
-  | .connect | .active => s0.errorClose
-  | _ => s0
+      if s.holdTime > 0 then ((s.setKeepalive none).sendKeepalive).setKeepalive (some (s.now + s.kaTicks))
+      else (s.setKeepalive none).sendKeepalive
+  | .connect | .active => (s.setKeepalive none).errorClose
+  | _ => s.setKeepalive none
 
 def fireIdleHold (s : Sess) : Sess :=
-  let s0 := { s with tm := { s.tm with idleHold := none } }
-  if s0.st = .idle then s0.autoStart false else s0
+  if s.st = .idle then (s.setIdleHold none).autoStart false else s.setIdleHold none
 
 /-! ### FSM message events -/
 
@@ -316,30 +329,27 @@ def fsmOpenReceived (s : Sess) : Sess :=
   match s.st with
   | .connect | .active => s.errorClose
   | .openSent =>
-      let s1 := ({ s with tm := { s.tm with retry := none } }).sendKeepalive
-      let s2 :=
-        if s1.holdTime > 0 then
-          { s1 with tm := { s1.tm with keepalive := some (s1.now + s1.kaTicks), hold := some (s1.now + s1.holdTicks) } }
-        else { s1 with tm := { s1.tm with keepalive := none, hold := none } }
-      s2.setSt .openConfirm
-  | .openConfirm => s
+      if s.holdTime > 0 then
+        ((((s.setRetry none).sendKeepalive).setKeepalive (some (s.now + s.kaTicks))).setHold (some (s.now + s.holdTicks))).setSt .openConfirm
+      else ((((s.setRetry none).sendKeepalive).setKeepalive none).setHold none).setSt .openConfirm
+  | .openConfirm => (s.sendNotification C.errFsm 0 []).errorClose
   | .established => (s.sendNotification C.errFsm 0 []).errorClose
   | .idle => s
 
+def restartHold (s : Sess) : Sess :=
+  if s.holdTime ≠ 0 then s.setHold (some (s.now + s.holdTicks)) else s
+
 def fsmKeepaliveReceived (s : Sess) : Sess :=
   match s.st with
-  | .openConfirm =>
-      (if s.holdTime ≠ 0 then { s with tm := { s.tm with hold := some (s.now + s.holdTicks) } } else s).setSt .established
-  | .established =>
-      if s.holdTime ≠ 0 then { s with tm := { s.tm with hold := some (s.now + s.holdTicks) } } else s
+  | .openConfirm => s.restartHold.setSt .established
+  | .established => s.restartHold
   | .connect | .active => s.errorClose
   | .openSent => (s.sendNotification C.errFsm 0 []).errorClose
   | .idle => s
 
 def fsmUpdateReceived (s : Sess) : Sess :=
   match s.st with
-  | .established =>
-      if s.holdTime ≠ 0 then { s with tm := { s.tm with hold := some (s.now + s.holdTicks) } } else s
+  | .established => s.restartHold
   | .connect | .active => s.errorClose
   | .openSent | .openConfirm => (s.sendNotification C.errFsm 0 []).errorClose
   | .idle => s
@@ -347,7 +357,7 @@ def fsmUpdateReceived (s : Sess) : Sess :=
 def fsmNotificationReceived (s : Sess) (err sub : Nat) : Sess :=
   if err = C.errOpen ∧ sub = 1 then
     match s.st with
-    | .openSent | .openConfirm => (({ s with tm := { s.tm with retry := none } }).closeConn).setSt .idle
+    | .openSent | .openConfirm => ((s.setRetry none).closeConn).setSt .idle
     | .connect | .active => s.errorClose
     | .established => s.errorClose
     | .idle => s
@@ -355,58 +365,45 @@ def fsmNotificationReceived (s : Sess) (err sub : Nat) : Sess :=
 
 /-! ### BGP.parse_buffer: one iteration on connection `i` -/
 
+/-- the tail of BGP._open_received once Open.parse succeeded and the AS matched -/
+def openAccepted (s : Sess) (i : Nat) (m : OpenMsg) : Sess × Bool :=
+  if m.holdTime ≠ 0 ∧ m.holdTime < 3 then
+    ((if m.caps.fourBytesAs ∧ (s.cfg.localAs > 65535 ∨ s.localCaps.fourBytesAs) then (s.withRemote m.caps).setAsn4 i
+      else s.withRemote m.caps).openMessageError C.openBadHold, false)
+  else
+    ((((if m.caps.fourBytesAs ∧ (s.cfg.localAs > 65535 ∨ s.localCaps.fourBytesAs) then (s.withRemote m.caps).setAsn4 i
+        else s.withRemote m.caps).withHoldTime (min s.cfg.holdCfg m.holdTime)).fsmOpenReceived).emit (.hOpen i m), true)
+
 /-- BGP._open_received; the Bool is the value parse_buffer returns (True = continue) -/
 def openReceived (s : Sess) (i : Nat) (body : Bytes) : Sess × Bool :=
-  let s1 := s.setConn i (bumpRecv (s.conn i) fun st => { st with opens := st.opens + 1 })
   match parseOpen body with
-  | .error (.hdr sub) => (s1.headerError sub [], false)
-  | .error (.open sub) => (s1.openMessageError sub, false)
-  | .error .other => (s1, true)                            -- outer catch-all: logged, message skipped
+  | .error (.hdr sub) => ((s.bumpRecv i incOpens).headerError sub [], false)
+  | .error (.open sub) => ((s.bumpRecv i incOpens).openMessageError sub, false)
+  | .error .other => (s.bumpRecv i incOpens, true)              -- outer catch-all: logged, message skipped
   | .ok m =>
-    if s1.cfg.remoteAs ≠ m.asn then (s1.openMessageError C.openBadPeerAs, false)
-    else
-      let s2 := { s1 with remote := m.caps }
-      let s3 :=
-        if m.caps.fourBytesAs ∧ (s2.cfg.localAs > 65535 ∨ s2.localCaps.fourBytesAs) then
-          s2.setConn i { (s2.conn i) with asn4 := true }
-        else s2
-      if m.holdTime ≠ 0 ∧ m.holdTime < 3 then (s3.openMessageError C.openBadHold, false)
-      else
-        let s4 := { s3 with holdTime := min s3.cfg.holdCfg m.holdTime }
-        ((s4.fsmOpenReceived).emit (.hOpen i m), true)
+    if s.cfg.remoteAs ≠ m.asn then ((s.bumpRecv i incOpens).openMessageError C.openBadPeerAs, false)
+    else (s.bumpRecv i incOpens).openAccepted i m
 
 /-- the dispatch part of parse_buffer for a complete frame of type `ty` with body `body` -/
 def dispatch (U : Bool → Bytes → UpdClass) (s : Sess) (i : Nat) (ty : Nat) (body : Bytes) : Sess × Bool :=
   if ty = C.msgOpen then openReceived s i body
   else if ty = C.msgUpdate then
     match U (s.conn i).asn4 body with
-    | .raises => (s, true)
-    | .unmodelled => (s.emit .unmodelled, true)
-    | .malformed =>
-        let s1 := s.emit (.hUpdateError i body)
-        let s2 := s1.setConn i (bumpRecv (s1.conn i) fun st => { st with updates := st.updates + 1 })
-        (s2.fsmUpdateReceived, true)
-    | .good =>
-        let s1 := s.emit (.hUpdate i (s.conn i).asn4 body)
-        let s2 := s1.setConn i (bumpRecv (s1.conn i) fun st => { st with updates := st.updates + 1 })
-        (s2.fsmUpdateReceived, true)
+    | .raises => (s.bumpRecv i incUpdates, true)
+    | .unmodelled => ((s.bumpRecv i incUpdates).emit .unmodelled, true)
+    | .malformed => (((s.bumpRecv i incUpdates).emit (.hUpdateError i body)).fsmUpdateReceived, true)
+    | .good => (((s.bumpRecv i incUpdates).emit (.hUpdate i (s.conn i).asn4 body)).fsmUpdateReceived, true)
   else if ty = C.msgNotification then
     match parseNotification body with
     | none => (s, true)
-    | some (e, sub, d) =>
-        let s1 := s.setConn i (bumpRecv (s.conn i) fun st => { st with notifications := st.notifications + 1 })
-        ((s1.emit (.hNotification i d)).fsmNotificationReceived e sub, true)
+    | some (e, sub, d) => ((((s.bumpRecv i incNotifications).emit (.hNotification i d))).fsmNotificationReceived e sub, true)
   else if ty = C.msgKeepalive then
-    let s1 := s.setConn i (bumpRecv (s.conn i) fun st => { st with keepalives := st.keepalives + 1 })
-    let s2 := s1.emit (.hKeepalive i)
-    if body = [] then (s2.fsmKeepaliveReceived, true)
-    else (s2.headerError C.hdrBadLen [], false)
+    if body = [] then (((s.bumpRecv i incKeepalives).emit (.hKeepalive i)).fsmKeepaliveReceived, true)
+    else (((s.bumpRecv i incKeepalives).emit (.hKeepalive i)).headerError C.hdrBadLen [], false)
   else if ty = C.msgRouteRefresh ∨ ty = C.msgCiscoRouteRefresh then
     match parseRouteRefresh body with
-    | none => (s, true)
-    | some (a, r, sf) =>
-        let s1 := s.setConn i (bumpRecv (s.conn i) fun st => { st with routeRefresh := st.routeRefresh + 1 })
-        (s1.emit (.hRouteRefresh i a r sf ty), true)
+    | none => (s.bumpRecv i incRouteRefresh, true)
+    | some (a, r, sf) => ((s.bumpRecv i incRouteRefresh).emit (.hRouteRefresh i a r sf ty), true)
   else (s.headerError C.hdrBadType (be16 ty), true)
 
 /-- what parse_buffer sees at the head of the receive buffer -/
@@ -426,32 +423,34 @@ def headOf (buf : Bytes) : Head :=
   else if buf.length < frameLen buf then .short
   else .frame (buf.getD 18 0).toNat ((buf.take (frameLen buf)).drop C.hdrLen) (frameLen buf)
 
-/-- one call of parse_buffer on connection `i`; the Bool is its return value -/
-def parseBuffer (U : Bool → Bytes → UpdClass) (s : Sess) (i : Nat) : Sess × Bool :=
-  if (s.conn i).disconnected then (s, false)
+/-- one call of parse_buffer on connection `i` whose receive buffer is `buf` (only parse_buffer and
+    dataReceived touch `_receive_buffer`, so it is threaded separately from the rest of the state):
+    `some rest` = returned True with the buffer advanced, `none` = returned False (buffer unchanged) -/
+def parseBuffer (U : Bool → Bytes → UpdClass) (s : Sess) (i : Nat) (buf : Bytes) : Sess × Option Bytes :=
+  if (s.conn i).disconnected then (s, none)
   else
-    match headOf (s.conn i).buf with
-    | .short => (s, false)
-    | .badMarker => (s.headerError C.hdrNotSync [], false)
-    | .badLength len => (s.headerError C.hdrBadLen (be16 len), false)
+    match headOf buf with
+    | .short => (s, none)
+    | .badMarker => (s.headerError C.hdrNotSync [], none)
+    | .badLength len => (s.headerError C.hdrBadLen (be16 len), none)
     | .frame ty body len =>
-      let r := dispatch U s i ty body
-      if r.2 then
-        (r.1.setConn i { (r.1.conn i) with buf := (r.1.conn i).buf.drop len }, true)
-      else (r.1, false)
+      if (dispatch U s i ty body).2 then ((dispatch U s i ty body).1, some (buf.drop len))
+      else ((dispatch U s i ty body).1, none)
 
 /-- `while self.parse_buffer(): pass` — fuel is the buffer length: every True iteration drops ≥ 19 octets
-    (Props/C04 proves that the fuel is never exhausted) -/
-def drain (U : Bool → Bytes → UpdClass) : Nat → Sess → Nat → Sess
-  | 0, s, _ => s
-  | fuel+1, s, i =>
-    let r := parseBuffer U s i
-    if r.2 then drain U fuel r.1 i else r.1
+    (Props/C04 proves that the fuel is never exhausted); returns the final state and the remaining buffer -/
+def drain (U : Bool → Bytes → UpdClass) : Nat → Sess → Nat → Bytes → Sess × Bytes
+  | 0, s, _, buf => (s, buf)
+  | fuel+1, s, i, buf =>
+    match (parseBuffer U s i buf).2 with
+    | some rest => drain U fuel (parseBuffer U s i buf).1 i rest
+    | none => ((parseBuffer U s i buf).1, buf)
 
-/-- BGP.dataReceived on connection `i` -/
-def dataReceived (U : Bool → Bytes → UpdClass) (s : Sess) (i : Nat) (data : Bytes) : Sess :=
-  let s1 := s.setConn i { (s.conn i) with buf := (s.conn i).buf ++ data }
-  drain U ((s1.conn i).buf.length / 19 + 1) s1 i
+/-- BGP.dataReceived on connection `i`, whose receive buffer held `buf`: the new state and the new buffer.
+    (`_receive_buffer` is read and written by dataReceived / parse_buffer only, so the buffers live next to
+    the session state — `World` below — instead of inside it.) -/
+def dataReceived (U : Bool → Bytes → UpdClass) (s : Sess) (i : Nat) (buf data : Bytes) : Sess × Bytes :=
+  drain U ((buf ++ data).length / 19 + 1) s i (buf ++ data)
 
 end Sess
 
@@ -490,24 +489,34 @@ def enabled (s : Sess) : Ev → Bool
                | some d => d ≤ s.now
                | none => false
 
-def step (U : Bool → Bytes → UpdClass) (s : Sess) (e : Ev) : Sess :=
-  let s0 := { s with outs := [] }
-  match e with
-  | .boot => s0.autoStart false
-  | .manualStart => s0.manualStart
-  | .manualStop => s0.manualStop
-  | .connOk c => s0.connOk c
-  | .connFail c => s0.connFail c
-  | .chunk c d => s0.dataReceived U c d
-  | .lost c => s0.connLost c
-  | .advance dt => { s0 with now := s0.now + dt }
-  | .fire .retry => s0.fireRetry
-  | .fire .hold => s0.fireHold
-  | .fire .keepalive => s0.fireKeepalive
-  | .fire .idleHold => s0.fireIdleHold
+/-- the session state together with the receive buffer of every connection -/
+structure World where
+  sess : Sess
+  rbuf : Nat → Bytes := fun _ => []
 
-def run (U : Bool → Bytes → UpdClass) (s : Sess) : List Ev → Sess
-  | [] => s
-  | e :: es => run U (step U s e) es
+def setRbuf (f : Nat → Bytes) (i : Nat) (b : Bytes) : Nat → Bytes := fun j => if j = i then b else f j
+
+def step (U : Bool → Bytes → UpdClass) (w : World) (e : Ev) : World :=
+  match e with
+  | .boot => { w with sess := (w.sess.withOuts []).autoStart false }
+  | .manualStart => { w with sess := (w.sess.withOuts []).manualStart }
+  | .manualStop => { w with sess := (w.sess.withOuts []).manualStop }
+  | .connOk c => { w with sess := (w.sess.withOuts []).connOk c }
+  | .connFail c => { w with sess := (w.sess.withOuts []).connFail c }
+  | .chunk c d =>
+      { sess := ((w.sess.withOuts []).dataReceived U c (w.rbuf c) d).1,
+        rbuf := setRbuf w.rbuf c ((w.sess.withOuts []).dataReceived U c (w.rbuf c) d).2 }
+  | .lost c => { w with sess := (w.sess.withOuts []).connLost c }
+  | .advance dt => { w with sess := (w.sess.withOuts []).withNow (w.sess.now + dt) }
+  | .fire .retry => { w with sess := (w.sess.withOuts []).fireRetry }
+  | .fire .hold => { w with sess := (w.sess.withOuts []).fireHold }
+  | .fire .keepalive => { w with sess := (w.sess.withOuts []).fireKeepalive }
+  | .fire .idleHold => { w with sess := (w.sess.withOuts []).fireIdleHold }
+
+def run (U : Bool → Bytes → UpdClass) (w : World) : List Ev → World
+  | [] => w
+  | e :: es => run U (step U w e) es
+
+def bootWorld (cfg : Cfg) : World := { sess := boot cfg }
 
 end Yabgp
